@@ -200,6 +200,10 @@ func (g *projGen) method(ci, mi int, prefixParams []string, types []pType, file 
 			m.Annots = append(m.Annots, pAnnot{Name: "Response", Value: "204", Desc: "done"})
 		}
 	}
+	if r.Chance(1, 12) {
+		// a repeated @Route (a warning, the project stays accepted): the route is reduced, documented and served under the FIRST
+		m.Annots = append(m.Annots, pAnnot{Name: "Route", Value: fmt.Sprintf("/legacy%d_%d", ci, mi)})
+	}
 	if r.Chance(1, 8) {
 		// a receiver without a name (or with the blank one) is a method of the controller all the same
 		m.Recv = rng.Pick(r, []string{"anon-ptr", "anon-val", "blank"})
@@ -223,8 +227,8 @@ func (g *projGen) perturb(m *pMethod, structNames []string) string {
 	}
 	routeIdx, methodIdx := -1, -1
 	for i, a := range m.Annots {
-		if a.Name == "Route" {
-			routeIdx = i
+		if a.Name == "Route" && routeIdx < 0 {
+			routeIdx = i // the FIRST @Route is the one that counts
 		}
 		if a.Name == "Method" {
 			methodIdx = i
